@@ -18,10 +18,10 @@ S12 = 'S12-record-size-wraps-modulo-2^32'
 
 PARAMS = {
     # pid: quick (ncfg, nh), thorough (ncfg, nh), history kwargs, cfg kwargs
-    'C01': dict(q=(24, 8), t=(400, 24), h=dict(p_full=0.1, p_other=0.1), c=dict(), lens=[6, 12, 30], extra=[40, 100, 300, 64]),
+    'C01': dict(q=(24, 8), t=(400, 24), h=dict(p_full=0.1, p_other=0.1), c=dict(small_sizes_p=0.2), lens=[6, 12, 30], extra=[40, 100, 300, 64]),
     'C02': dict(q=(28, 10), t=(500, 30), h=dict(p_full=0.2, p_other=0.12, maxlen=6, p_toggle=0.08, p_eager=0.1), c=dict(), lens=[8, 20, 40], extra=[0, 1, 3, 7, 9, 17, 23, 40, 64]),
     'C03': dict(q=(24, 10), t=(400, 30), h=dict(p_full=0.3, p_other=0.2, p_toggle=0.12, p_eager=0.12), c=dict(), lens=[5, 15, 40, 60], extra=[2, 9, 16, 33, 64, 120]),
-    'C04': dict(q=(24, 8), t=(400, 24), h=dict(p_full=0.25, p_other=0.2, p_toggle=0.06, p_eager=0.1), c=dict(), lens=[10, 30, 60], extra=[4, 16, 40, 90]),
+    'C04': dict(q=(24, 8), t=(400, 24), h=dict(p_full=0.25, p_other=0.2, p_toggle=0.06, p_eager=0.1), c=dict(small_sizes_p=0.3), lens=[10, 30, 60], extra=[4, 16, 40, 90]),
     'C05': dict(q=(24, 8), t=(400, 24), h=dict(p_full=0.25, p_other=0.2, p_eager=0.1), c=dict(clock_p=1.0), lens=[10, 30, 60], extra=[0, 8, 24, 60, 100]),
     'C06': dict(q=(20, 10), t=(300, 30), h=dict(p_full=0.3, p_other=0.45, p_swap=0.15, p_toggle=0.0, p_same_addr=0.5, p_eager=0.1), c=dict(), lens=[6, 20, 50], extra=[0, 8, 30, 64]),
     'C07': dict(q=(20, 10), t=(300, 30), h=dict(p_full=0.2, p_other=0.4, p_toggle=0.25, p_eager=0.1), c=dict(), lens=[8, 20, 40], extra=[4, 20, 64]),
